@@ -331,6 +331,11 @@ class Ctx:
     def finish(self) -> int:
         wall = time.time() - self.t0
         REPLAY.mkdir(parents=True, exist_ok=True)
+        for stale in REPLAY.glob(f"{self.prop}-{self.seed}-*.json"):  # replays of an earlier run with this seed describe another tree
+            try:
+                stale.unlink()
+            except OSError:
+                pass
         rc = 0
         lines = []
         for h in self.known_hits:
